@@ -215,8 +215,70 @@ def sz2(F, R):
     R.floor("SZ2", "derived serde impls", n + sum(1 for v in R.violations if v["rule"] == "SZ2"), 10)
 
 
-def find_calls(b, pred):
-    return [(site, t) for site, t in b.calls() if pred(t["callee"])]
+def fallible_events(raw, krate=None, pathprefix=None, names=None):
+    out = []
+    for e in raw:
+        if e.kind != "call" or e.exp:
+            continue
+        if krate is not None and e.krate != krate:
+            continue
+        if pathprefix is not None and not e.path.startswith(pathprefix):
+            continue
+        if names is not None and not any(n in e.name for n in names):
+            continue
+        out.append(e)
+    return out
+
+
+def call_expr(ev):
+    """the ("call", path, args, bb) expression an event's result is referred to by"""
+    return ("call", ev.path, tuple(ev.args), ev.site[0])
+
+
+def mentions_call(e, ev):
+    key = (ev.path, ev.site[0])
+    return mentions(e, lambda x: x[0] == "call" and len(x) > 3 and (x[1], x[3]) == key)
+
+
+def ok_values(b):
+    """(site, payload expression) of every way the function returns success, and the other results"""
+    oks, others = [], []
+    for d in b.defs().get(0, []):
+        site = (d[0], d[1])
+        e = b.expr_rvalue(d[3], site) if d[2] == "assign" else b.expr_call(d[3], site)
+        c = strip_load(e)
+        arms = list(c[1]) if c[0] == "phi" else [c]
+        for a in arms:
+            a = strip_load(a)
+            if a[0] == "agg" and a[2] == "Ok":
+                oks.append((site, strip_load(dict(a[3])["0"]), None))
+            elif a[0] in ("optmap", "andthen"):
+                oks.append((site, payload(a), a))          # combinator chain: Ok iff every link is Ok
+            elif a[0] == "agg" and a[2] == "Err":
+                others.append((site, a, "err"))
+            elif a[0] == "call" and a[1].split("::")[-1] == "from_residual":
+                others.append((site, a, "err"))
+            else:
+                others.append((site, a, "other"))
+    return oks, others
+
+
+def success_deps(e):
+    """fallible calls whose success a combinator-chain value depends on"""
+    out = []
+    e = strip_load(e)
+    if e[0] == "optmap":
+        out += success_deps(e[2])
+    elif e[0] == "andthen":
+        out += success_deps(e[1]) + success_deps(e[2])
+    elif e[0] in ("ctx", "try", "some", "opt"):
+        out += success_deps(e[1])
+    elif e[0] == "call":
+        out.append(e)
+    elif e[0] == "phi":
+        for x in e[1]:
+            out += success_deps(x)
+    return out
 
 
 def sz345(F, R):
@@ -225,83 +287,81 @@ def sz345(F, R):
     if save is None or load is None:
         R.missing("SZ3", "Sodg::save / Sodg::load")
         return
-    R.analysed(save, sum(1 for _ in save.sites()))
-    R.analysed(load, sum(1 for _ in load.sites()))
+    sraw = Collector(F, stop_names=("len", "keys")).collect(save)
+    lraw = Collector(F, stop_names=("len", "keys")).collect(load)
+    R.analysed(save, len(sraw))
+    R.analysed(load, len(lraw))
     # ---- save
-    sers = find_calls(save, lambda c: c.get("krate") == "bincode" and "serialize" in c.get("name", ""))
-    writes = find_calls(save, lambda c: c.get("path", "").startswith("std::fs::") or c.get("name") in ("write_all",))
+    sers = fallible_events(sraw, krate="bincode", names=("serialize",))
+    fsops = fallible_events(sraw, pathprefix="std::fs::") + [e for e in sraw if e.kind == "call" and e.name in ("write_all",)]
     if len(sers) != 1:
         R.bad("SZ3", "SZ3/Sodg::save/serialize-calls", save.where(), "cannot establish SZ3: save() has %d bincode serialisation calls" % len(sers))
     else:
-        site, t = sers[0]
-        a = strip_load(deref_addr(save, save.call_args(t, site)[-1]))
+        a = strip_load(sers[0].args[-1])
         if a != ("param", 1):
-            R.bad("SZ3", "SZ3/Sodg::save/not-self-whole", save.where(site), "save() does not serialise the whole graph", {"arg": show(a, save)})
+            R.bad("SZ3", "SZ3/Sodg::save/not-self-whole", sers[0].where(), "save() does not serialise the whole graph", {"arg": show(a, save)})
         else:
-            R.ok("SZ3", save.where(site), "save(): bincode serialisation of the whole `self`")
-    ws = [(s, t) for s, t in writes if t["callee"].get("name") == "write"]
-    if len(ws) != 1 or len(writes) != 1:
-        R.bad("SZ3", "SZ3/Sodg::save/file-writes", save.where(), "cannot establish SZ3: save() performs %d file operations (expected one fs::write)" % len(writes))
+            R.ok("SZ3", sers[0].where(), "save(): bincode serialisation of the whole `self`")
+    ws = [e for e in fsops if e.name == "write"]
+    if len(ws) != 1 or len(fsops) != 1:
+        R.bad("SZ3", "SZ3/Sodg::save/file-writes", save.where(), "cannot establish SZ3: save() performs %d file operations (expected one fs::write)" % len(fsops))
     elif sers:
-        site, t = ws[0]
-        args = [strip_load(deref_addr(save, a)) for a in save.call_args(t, site)]
+        w = ws[0]
+        args = [strip_load(a) for a in w.args]
         okp = args[0] == ("param", 2)
         data = args[1]
-        okd = mentions(data, lambda x: x[0] == "call" and x[1].split("::")[-1] == sers[0][1]["callee"]["name"] and x[3] == sers[0][0][0]) and \
+        okd = mentions_call(data, sers[0]) and \
             not mentions(data, lambda x: x[0] in ("slice", "subslice") or (x[0] == "call" and x[1].split("::")[-1] in
-                                                                           ("truncate", "split_at", "take", "get", "drain", "split_off")))
-        muts = [e for e in Collector(F).collect(save) if e.kind == "call" and e.args and
+                                                                          ("truncate", "split_at", "take", "get", "drain", "split_off")))
+        muts = [e for e in sraw if e.kind == "call" and e.args and
                 strip_sites(strip_load(e.args[0])) == strip_sites(data) and
                 e.name in ("truncate", "clear", "push", "pop", "drain", "resize", "retain", "extend_from_slice", "insert", "remove", "split_off", "swap_remove", "reverse", "sort")]
         if okp and okd and not muts:
-            R.ok("SZ3", save.where(site), "save(): fs::write(path, exactly the serialised bytes)")
+            R.ok("SZ3", w.where(), "save(): fs::write(path, exactly the serialised bytes)")
         else:
-            R.bad("SZ3", "SZ3/Sodg::save/written-bytes-not-the-image", save.where(site),
+            R.bad("SZ3", "SZ3/Sodg::save/written-bytes-not-the-image", w.where(),
                   "the bytes written to the file are not exactly the serialised image (cut, altered or another path)",
                   {"path_ok": okp, "data": show(data, save), "mutations": [m.name for m in muts]})
     # ---- load
-    reads = find_calls(load, lambda c: c.get("path", "").startswith("std::fs::"))
-    des = find_calls(load, lambda c: c.get("krate") == "bincode" and "deserialize" in c.get("name", ""))
-    if len(reads) != 1 or reads[0][1]["callee"].get("name") != "read":
+    reads = fallible_events(lraw, pathprefix="std::fs::")
+    des = fallible_events(lraw, krate="bincode", names=("deserialize",))
+    if len(reads) != 1 or reads[0].name != "read":
         R.bad("SZ4", "SZ4/Sodg::load/file-reads", load.where(), "cannot establish SZ4: load() does not read the file with one fs::read")
         return
     if len(des) != 1:
         R.bad("SZ4", "SZ4/Sodg::load/deserialize-calls", load.where(), "cannot establish SZ4: load() has %d bincode deserialisation calls" % len(des))
         return
-    rsite, rt = reads[0]
-    dsite, dt = des[0]
-    ra = strip_load(deref_addr(load, load.call_args(rt, rsite)[0]))
-    da = strip_load(deref_addr(load, load.call_args(dt, dsite)[-1]))
-    from_read = mentions(da, lambda x: x[0] == "call" and x[1].split("::")[-1] == "read" and x[3] == rsite[0])
+    rd, de = reads[0], des[0]
+    ra = strip_load(rd.args[0])
+    da = strip_load(de.args[-1])
+    from_read = mentions_call(da, rd)
     cut = mentions(da, lambda x: x[0] in ("slice", "subslice") or (x[0] == "call" and x[1].split("::")[-1] in
                                                                    ("split_at", "get", "take", "first", "last", "chunks", "split_first", "trim_ascii")))
     if ra == ("param", 1) and from_read and not cut:
-        R.ok("SZ4", load.where(dsite), "load(): deserialises the complete byte vector read from `path`")
+        R.ok("SZ4", de.where(), "load(): deserialises the complete byte vector read from `path`")
     else:
-        R.bad("SZ4", "SZ4/Sodg::load/input-not-the-whole-file", load.where(dsite),
+        R.bad("SZ4", "SZ4/Sodg::load/input-not-the-whole-file", de.where(),
               "load() does not decode exactly the complete content of the file at `path`", {"input": show(da, load), "path": show(ra, load)})
-    # the value returned is the decoded graph, untouched
-    oks = []
-    for d in load.defs().get(0, []):
-        site = (d[0], d[1])
-        e = load.expr_rvalue(d[3], site) if d[2] == "assign" else load.expr_call(d[3], site)
-        if e[0] == "agg" and e[2] == "Ok":
-            oks.append((site, strip_load(dict(e[3])["0"])))
+    oks, others = ok_values(load)
     if len(oks) != 1:
-        R.bad("SZ4", "SZ4/Sodg::load/ok-returns", load.where(), "cannot establish SZ4: load() builds %d Ok(..) values" % len(oks))
+        R.bad("SZ4", "SZ4/Sodg::load/ok-returns", load.where(), "cannot establish SZ4: load() has %d success results" % len(oks))
         return
-    osite, val = oks[0]
-    is_dec = mentions(val, lambda x: x[0] == "call" and x[1].split("::")[-1] == dt["callee"]["name"] and x[3] == dsite[0]) and val[0] in ("some", "call")
-    if not is_dec:
+    osite, val, chain = oks[0]
+    is_dec = mentions_call(val, de) and not mentions(val, lambda x: x[0] == "agg" and x[1] == "Sodg")
+    pure = strip_load(val)
+    for _ in range(4):
+        if pure[0] in ("some", "ctx", "try"):
+            pure = strip_load(pure[1])
+    if not is_dec or pure[0] != "call":
         R.bad("SZ4", "SZ4/Sodg::load/returns-something-else", load.where(osite), "load() returns something other than the graph it decoded",
               {"value": show(val, load)})
     else:
-        # no mutation of the decoded graph before it is returned
         touched = []
-        for e in Collector(F, stop_names=()).collect(load):
-            if e.kind == "write" and mentions(e.loc, lambda x: strip_sites(x) == strip_sites(val)):
+        for e in lraw:
+            if e.kind == "write" and mentions(e.loc, lambda x: strip_sites(x) == strip_sites(val) or strip_sites(x) == strip_sites(pure)):
                 touched.append((e, "write"))
-            if e.kind == "call" and e.callee.get("local") and e.args and strip_sites(strip_load(e.args[0])) == strip_sites(val):
+            if e.kind == "call" and e.callee.get("local") and e.args and \
+                    (strip_sites(strip_load(e.args[0])) in (strip_sites(val), strip_sites(pure)) or mentions_call(e.args[0], de)):
                 cb = F.bodies.get(e.path)
                 if cb is not None and cb.locals[1]["ty"].startswith("&mut"):
                     touched.append((e, e.name))
@@ -312,12 +372,12 @@ def sz345(F, R):
         else:
             R.ok("SZ4", load.where(osite), "load() returns the decoded graph unmodified")
     # ---- SZ5 codec family
-    sp = sers[0][1]["callee"].get("path") if sers else None
-    dp = dt["callee"].get("path")
+    sp = sers[0].path if sers else None
+    dp = de.path
     if sp == "bincode::serialize" and dp == "bincode::deserialize":
-        R.ok("SZ5", load.where(dsite), "save and load use the same bincode configuration (bincode::serialize / bincode::deserialize)")
+        R.ok("SZ5", de.where(), "save and load use the same bincode configuration (bincode::serialize / bincode::deserialize)")
     else:
-        R.bad("SZ5", "SZ5/Sodg/codec-pair", load.where(dsite),
+        R.bad("SZ5", "SZ5/Sodg/codec-pair", de.where(),
               "save() and load() do not use the matching pair of the same bincode configuration (%s vs %s)" % (sp, dp))
 
 
@@ -331,59 +391,41 @@ def ld12(F, R):
     if load is None:
         R.missing("LD1", "Sodg::load")
         return
-    col = Collector(F, stop_names=("len", "keys"))
-    raw = col.collect(load)
+    raw = Collector(F, stop_names=("len", "keys")).collect(load)
     R.analysed(load, len(raw))
-    n = 0
-    fallible = []
-    for e in raw:
-        if e.kind != "call" or e.exp:
-            continue
-        if (e.path.startswith("std::fs::") or e.krate == "bincode") and e.body is load:
-            fallible.append(e)
+    fallible = [e for e in raw if e.kind == "call" and not e.exp and (e.path.startswith("std::fs::") or e.krate == "bincode")]
     R.floor("LD1", "fallible calls in load() (file read, decode)", len(fallible), 2, load.where())
     for e in raw:
-        if e.kind != "call":
-            continue
-        if e.name in PANICKY and not e.exp:
-            # on input-derived data?
-            derived = any(mentions(a, lambda x: x[0] == "call" and any(strip_sites(x) == strip_sites(call_expr(f)) for f in fallible)) for a in e.args) \
-                if fallible else True
+        if e.kind == "call" and e.name in PANICKY and not e.exp:
             R.bad("LD1", "LD1/Sodg::load/%s" % e.name, e.where(),
-                  "load() uses `%s` %s: a truncated or unreadable image panics or is silently replaced instead of giving Err"
-                  % (e.name, "on the result of a fallible step" if derived else "on a path of load()"))
-        n += 1
-    # every fallible result passes through `?`
-    ok_site = None
-    for d in load.defs().get(0, []):
-        site = (d[0], d[1])
-        ex = load.expr_rvalue(d[3], site) if d[2] == "assign" else load.expr_call(d[3], site)
-        if ex[0] == "agg" and ex[2] == "Ok":
-            ok_site = site
-        elif ex[0] == "call" and ex[1].split("::")[-1] == "from_residual":
+                  "load() uses `%s`: a truncated or unreadable image panics or is silently replaced instead of giving Err" % e.name)
+    oks, others = ok_values(load)
+    for site, a, kind in others:
+        if kind == "err":
             continue
-        elif ex[0] == "agg" and ex[2] == "Err":
+        # returning a fallible step's own result is propagation
+        core = strip_load(a)
+        for _ in range(4):
+            if core[0] in ("ctx", "try"):
+                core = strip_load(core[1])
+        if core[0] == "call" and any(mentions_call(core, f) for f in fallible):
             continue
-        else:
-            R.bad("LD2", "LD2/Sodg::load/unrecognised-result", load.where(site), "cannot establish LD2: load() returns an unrecognised value",
-                  {"value": show(ex, load)})
-    if ok_site is None:
-        R.missing("LD2", "Ok(..) result in load()", load.where())
+        R.bad("LD2", "LD2/Sodg::load/unrecognised-result", load.where(site), "cannot establish LD2: load() returns an unrecognised value",
+              {"value": show(a, load)[:300]})
+    if not oks:
+        R.missing("LD2", "success result in load()", load.where())
         return
-    facts = load.facts_at(ok_site)
-    for f in fallible:
-        ce = call_expr(f)
-        prop = any(x[0] == "in" and x[2] == frozenset(["Continue"]) and mentions(x[1], lambda y: strip_sites(y) == strip_sites(ce)) for x in facts)
-        matched = any(x[0] == "in" and x[2] == frozenset(["Ok"]) and mentions(x[1], lambda y: strip_sites(y) == strip_sites(ce)) for x in facts)
-        if prop or matched:
-            R.ok("LD1", f.where(), "the result of %s is propagated: Ok(graph) is returned only on its success edge" % short_path(f.path))
-        else:
-            R.bad("LD1", "LD1/Sodg::load/%s-result-not-propagated" % f.name, f.where(),
-                  "the success return of load() is not control-dependent on the success of %s: its failure does not become Err"
-                  % short_path(f.path))
-    R.ok("LD2", load.where(ok_site), "the only Ok(..) of load() is reached through the success edges of read and decode")
-
-
-def call_expr(ev):
-    """the ("call", path, args, bb) expression an event's result is referred to by"""
-    return ("call", ev.path, tuple(ev.args), ev.site[0])
+    for osite, val, chain in oks:
+        facts = load.facts_at(osite)
+        deps = success_deps(chain) if chain is not None else []
+        for f in fallible:
+            ce = call_expr(f)
+            by_flow = any(x[0] == "in" and x[2] <= frozenset(["Continue", "Ok"]) and mentions_call(x[1], f) for x in facts)
+            by_value = any((d[1], d[3] if len(d) > 3 else None) == (f.path, f.site[0]) or mentions_call(d, f) for d in deps)
+            if by_flow or by_value:
+                R.ok("LD1", f.where(), "the result of %s is propagated: success is returned only if it succeeded" % short_path(f.path))
+            else:
+                R.bad("LD1", "LD1/Sodg::load/%s-result-not-propagated" % f.name, f.where(),
+                      "the success return of load() does not depend on the success of %s: its failure does not become Err"
+                      % short_path(f.path))
+    R.ok("LD2", load.where(oks[0][0]), "the only success result of load() is reached through the success of read and decode")
